@@ -745,11 +745,110 @@ void run_copied_hints(RunCtx& cx) {
     F.log = nullptr;
 }
 
+// ---------------------------------------------------------------------------------------------------------------
+// C09 at the structure level: FilePreamble / BlockParameters / StorageParameters / StorageHints / CollectionParameters are
+// written with their own write() and read back with their own read() — into a fresh object and into an object that already
+// holds OTHER values (a configuration object that is reused): whatever the object held before must not survive as a phantom member.
+template <class Wr>
+std::string serialise_struct(const char* tag, Wr wr) {
+    simfs::FS& F = simfs::fs();
+    std::string name = std::string("/sim/c09-") + tag;
+    {
+        CDNS::CdnsEncoder enc(name, CDNS::CborOutputCompression::NO_COMPRESSION);
+        wr(enc);
+    }
+    std::string bytes = F.exists(name) ? F.get(name) : std::string();
+    F.dir.erase(name);
+    return bytes;
+}
+
+std::string canon_text(const ppl::PCanon& c) { return "S{" + ref::dump(c.storage) + "}" + (c.has_cp ? "C{" + ref::dump(c.cp) + "}" : "no-cp"); }
+std::string canon_text(const CDNS::FilePreamble& f) {
+    std::string s = "v" + std::to_string(f.m_major_format_version) + "." + std::to_string(f.m_minor_format_version) + (f.m_private_version ? "p" + std::to_string(*f.m_private_version) : "p-");
+    for (auto& bp : f.m_block_parameters) s += "|" + canon_text(ppl::canon_params(bp));
+    return s;
+}
+
+void run_preamble_objects(RunCtx& cx) {
+    Rng r(mix_str(cx.seed, "preamble-objects"));
+    simfs::FS& F = simfs::fs();
+    F.reset();
+    F.log = &cx.log;
+    auto make_fp = [&](CDNS::FilePreamble& fp) {
+        std::vector<CDNS::BlockParameters> v;
+        size_t k = r.range(1, 4);
+        for (size_t i = 0; i < k; i++) v.push_back(gen::block_parameters(r, r.chance(3, 4)));
+        fp = CDNS::FilePreamble(v);
+        if (r.coin()) fp.m_private_version = boost::none; else fp.m_private_version = (uint8_t)r.below(256);
+        fp.m_major_format_version = (uint8_t)r.below(256);
+        fp.m_minor_format_version = (uint8_t)r.below(256);
+    };
+    CDNS::FilePreamble A, B;
+    make_fp(A);
+    make_fp(B);
+    cx.n_ops = 5;
+    static const char* SN[] = {"FilePreamble", "BlockParameters", "StorageParameters", "StorageHints", "CollectionParameters"};
+    auto V = [&](unsigned k, const char* how, const std::string& want, const std::string& got) {
+        cx.violation("C09", std::string("C09/I25/structure-read-back-differs/") + SN[k] + "/" + how, std::string(SN[k]) + "::read into " + how + ": got " + got.substr(0, 300) + " want " + want.substr(0, 300));
+    };
+    const CDNS::BlockParameters& a0 = A.m_block_parameters[r.below(A.m_block_parameters.size())];
+    const CDNS::BlockParameters& b0 = B.m_block_parameters[r.below(B.m_block_parameters.size())];
+    try {
+        if (cx.kept(0)) {
+            std::string bytes = serialise_struct("fp", [&](CDNS::CdnsEncoder& e) { A.write(e); });
+            std::string want = canon_text(A);
+            { std::istringstream is(bytes); CDNS::CdnsDecoder d(is); CDNS::FilePreamble f; f.read(d); if (canon_text(f) != want) V(0, "a-fresh-object", want, canon_text(f)); }
+            { std::istringstream is(bytes); CDNS::CdnsDecoder d(is); CDNS::FilePreamble f = B; f.read(d); if (canon_text(f) != want) V(0, "a-used-object", want, canon_text(f)); }
+        }
+        if (cx.kept(1)) {
+            CDNS::BlockParameters a = a0;
+            std::string bytes = serialise_struct("bp", [&](CDNS::CdnsEncoder& e) { a.write(e); });
+            std::string want = canon_text(ppl::canon_params(a0));
+            { std::istringstream is(bytes); CDNS::CdnsDecoder d(is); CDNS::BlockParameters f; f.read(d); if (canon_text(ppl::canon_params(f)) != want) V(1, "a-fresh-object", want, canon_text(ppl::canon_params(f))); }
+            { std::istringstream is(bytes); CDNS::CdnsDecoder d(is); CDNS::BlockParameters f = b0; f.read(d); if (canon_text(ppl::canon_params(f)) != want) V(1, "a-used-object", want, canon_text(ppl::canon_params(f))); }
+        }
+        if (cx.kept(2)) {
+            CDNS::BlockParameters a = a0;
+            a.collection_parameters = boost::none;
+            std::string bytes = serialise_struct("sp", [&](CDNS::CdnsEncoder& e) { a.storage_parameters.write(e); });
+            std::string want = canon_text(ppl::canon_params(a));
+            { std::istringstream is(bytes); CDNS::CdnsDecoder d(is); CDNS::BlockParameters f; f.storage_parameters.read(d); if (canon_text(ppl::canon_params(f)) != want) V(2, "a-fresh-object", want, canon_text(ppl::canon_params(f))); }
+            { std::istringstream is(bytes); CDNS::CdnsDecoder d(is); CDNS::BlockParameters f = b0; f.collection_parameters = boost::none; f.storage_parameters.read(d); if (canon_text(ppl::canon_params(f)) != want) V(2, "a-used-object", want, canon_text(ppl::canon_params(f))); }
+        }
+        if (cx.kept(3)) {
+            CDNS::StorageHints h = a0.storage_parameters.storage_hints;
+            std::string bytes = serialise_struct("sh", [&](CDNS::CdnsEncoder& e) { h.write(e); });
+            auto txt = [](const CDNS::StorageHints& x) { return std::to_string(x.query_response_hints) + "/" + std::to_string(x.query_response_signature_hints) + "/" + std::to_string((unsigned)x.rr_hints) + "/" + std::to_string((unsigned)x.other_data_hints); };
+            { std::istringstream is(bytes); CDNS::CdnsDecoder d(is); CDNS::StorageHints f; f.read(d); if (txt(f) != txt(h)) V(3, "a-fresh-object", txt(h), txt(f)); }
+            { std::istringstream is(bytes); CDNS::CdnsDecoder d(is); CDNS::StorageHints f = b0.storage_parameters.storage_hints; f.read(d); if (txt(f) != txt(h)) V(3, "a-used-object", txt(h), txt(f)); }
+        }
+        if (cx.kept(4)) {
+            CDNS::BlockParameters a = a0, b = b0;
+            if (!a.collection_parameters) { CDNS::BlockParameters t = gen::block_parameters(r, true); a.collection_parameters = t.collection_parameters ? *t.collection_parameters : CDNS::CollectionParameters(); }
+            if (!b.collection_parameters) { CDNS::CollectionParameters c; c.promisc = true; c.snaplen = 77; c.filter = std::string("decoy"); c.interfaces.push_back("decoy0"); c.vlan_ids.push_back(9); c.server_address.push_back(std::string(4, 'x')); b.collection_parameters = c; }
+            std::string bytes = serialise_struct("cp", [&](CDNS::CdnsEncoder& e) { a.collection_parameters->write(e); });
+            std::string want = canon_text(ppl::canon_params(a));
+            { std::istringstream is(bytes); CDNS::CdnsDecoder d(is); CDNS::BlockParameters f = a; f.collection_parameters = CDNS::CollectionParameters(); f.collection_parameters->read(d); if (canon_text(ppl::canon_params(f)) != want) V(4, "a-fresh-object", want, canon_text(ppl::canon_params(f))); }
+            { std::istringstream is(bytes); CDNS::CdnsDecoder d(is); CDNS::BlockParameters f = a; f.collection_parameters = *b.collection_parameters; f.collection_parameters->read(d); if (canon_text(ppl::canon_params(f)) != want) V(4, "a-used-object", want, canon_text(ppl::canon_params(f))); }
+        }
+        cx.ctr->add("preamble_structures_read_back", 10);
+    } catch (std::exception& e) {
+        cx.violation("C09", "C09/I25/structure-read-back-threw", std::string("reading back a preamble structure the library serialised threw: ") + e.what());
+    }
+    cx.log.ev("PREAMBLE-OBJECTS sets " + std::to_string(A.m_block_parameters.size()) + "/" + std::to_string(B.m_block_parameters.size()));
+    if (cx.describe) cx.description = "FilePreamble A (" + std::to_string(A.m_block_parameters.size()) + " sets) and its parts written with write(), read back with read() into fresh objects and into objects holding preamble B (" + std::to_string(B.m_block_parameters.size()) + " sets)";
+    cx.nontrivial = true;
+    cx.state_key = "preamble-objects" + std::to_string(A.m_block_parameters.size()) + std::to_string(B.m_block_parameters.size()) + ",";
+    F.reset();
+    F.log = nullptr;
+}
+
 }  // namespace
 
 void sim::engine_objects(RunCtx& cx) {
     if (cx.prop == "C17") run_timestamps(cx);
     else if (cx.prop == "C11") run_tables(cx);
     else if (cx.prop == "C04") run_copied_hints(cx);
+    else if (cx.prop == "C09") run_preamble_objects(cx);
     else run_copies(cx);
 }
